@@ -144,6 +144,15 @@ def build_node(
     class_method.__doc__ = process_method.__doc__
 
     class_name = class_name or f'Generic{node.__name__}'
+
+    # The class is found by name in this module when an instance is sent to the process pool: the name must not
+    # be taken by another generated class, nor by anything else the module defines
+    registry_name, serial = class_name, 1
+    while registry_name in globals():
+        serial += 1
+        registry_name = f'{class_name}_{serial}'
+
+    class_name = registry_name
     created_node = type(
         class_name,
         (node,),
